@@ -68,8 +68,8 @@ ENTRIES = [
     # ---------------------------------------------------------------- D1 loops
     B('fetch-error-does-not-stop', P, "            if response and response.body:\n                response.body.close()\n\n            return True, wait_time", "            if response and response.body:\n                response.body.close()\n\n            return False, wait_time", 'C18-D1'),
     B('exit-early-ignored', P, "            if exit_early:\n                break\n", "", 'C18-D1'),
-    B('robots-loop-continues-on-error', RB, "                    except ProtocolError:\n                        self._accept_as_blank(url_info)\n\n                        return",
-      "                    except ProtocolError:\n                        continue", 'C18-D1'),
+    B('robots-loop-continues-on-error', RB, "                        self._accept_as_blank(url_info)\n\n                        return\n\n            status_code = response.status_code",
+      "                        continue\n\n            status_code = response.status_code", 'C18-D1'),
     B('session-recreated-per-hop', P, "            verdict, reason = self._should_fetch_reason()\n",
       "            verdict, reason = self._should_fetch_reason()\n            self._web_client_session = self._processor.web_client.session(self._item_session.request)\n", 'C18-D1'),
     # ---------------------------------------------------------------- D2
@@ -140,8 +140,8 @@ ENTRIES = [
       "        try:\n            if self._redirect_tracker.exceeded():\n                raise ProtocolError('Too many redirects.')\n        finally:\n            _logger.debug('Checked the redirect limit.')\n"),
     N('response-logging-and-helper', W, "        self._redirect_tracker.load(response)\n\n        if self._redirect_tracker.is_redirect():",
       "        tracker = self._redirect_tracker\n        tracker.load(response)\n        _logger.debug('Loaded response into tracker.')\n\n        if self._redirect_tracker.is_redirect():"),
-    N('robots-loop-logging', RB, "                    except ProtocolError:\n                        self._accept_as_blank(url_info)\n\n                        return",
-      "                    except ProtocolError as error:\n                        _logger.debug(__('robots.txt fetch failed: {0}', error))\n                        self._accept_as_blank(url_info)\n                        return None"),
+    N('robots-loop-logging', RB, "                        self._accept_as_blank(url_info)\n\n                        return\n\n            status_code = response.status_code",
+      "                        _logger.debug(__('robots.txt fetch failed'))\n                        self._accept_as_blank(url_info)\n                        return None\n\n            status_code = response.status_code"),
     N('set-status-reordered', S, "        if increment_try_count:\n            self._try_count_incremented = True\n\n        _logger.debug(__('Marking URL {0} status {1}.', url, status))\n",
       "        _logger.debug(__('Marking URL {0} status {1}.', url, status))\n\n        if increment_try_count:\n            self._try_count_incremented = True\n"),
     B('queue-insert-or-replace', Q, "insert(QueuedURL).prefix_with('OR IGNORE')", "insert(QueuedURL).prefix_with('OR REPLACE')", 'C18-D3'),
